@@ -811,21 +811,15 @@ fn raw_value(case: &RawCase, obs: &mut Obs) -> PropResult {
 			return Err(format!("the written file does not follow the JVMS layout: {e}"));
 		}
 	}
+	// the crate's own reader and writer agree with each other also for pools with Long/Double (both count entries,
+	// not slots): the open finding excuses the JVMS layout above, never this round trip
 	match raw::ClassFile::read(&mut Cursor::new(&bytes)) {
 		Ok(back) => {
 			if back != v {
-				if has_wide && obs.known("C20-long-double-pool-slots") {
-					return Ok(());
-				}
 				return Err(format!("read(write(v)) != v: wrote {:?}\n read {:?}", truncate(&format!("{v:?}")), truncate(&format!("{back:?}"))));
 			}
 		}
-		Err(e) => {
-			if has_wide && obs.known("C20-long-double-pool-slots") {
-				return Ok(());
-			}
-			return Err(format!("read(write(v)) fails: {e}"));
-		}
+		Err(e) => return Err(format!("read(write(v)) fails: {e}")),
 	}
 	obs.nontrivial_if(count_attr_kinds(&v) >= 3);
 	Ok(())
